@@ -40,6 +40,11 @@ CHECKS = {
   text="The explorer is the only thing that lets a VM advance: every schedule with at most 2 preemptions (2 threads) / 1 preemption (3 threads; +1 in the thorough tier) of threads running FRESH shared program instances (compiled regexp, lookup map, folded slice, call descriptors, nested scopes, ranges, dynamic patterns, a failing run on a multi-line source) on two shared read-only environments is executed; every run must return its solo result and the canonical deep snapshot of the shared programs and environments must be unchanged after every schedule. Replay determinism is checked first; a divergence while replaying a prefix is a hard error. Accesses between two scheduling points and concurrent Compile calls are covered by the same bodies run free under -race (auxiliary, not model checking).",
   note="Trusted: instruction boundaries as scheduling points; the race detector for the auxiliary pass; if the library starts importing package sync, snapshot changes are reported only together with a race report.",
   ref="DESIGN.md section 4 C08"),
+ "C09": dict(
+  technique="exhaustive enumeration of expressions x option configurations with repeated compilation, deep before/after snapshots and a second process; exhaustive exploration of every permutation of every map iterated during Compile through a seam generated from the current sources (explicit enumeration of environment answers)",
+  text="Every expression of six corpora x 8 option configurations is compiled three times with unrelated compiles in between (identical bytecode, constants in order, locations; probes compiled first-in-process and again at the end expose dependence on earlier compiles); the corpus is re-hashed in a second process; a generated build overlay routes every map iteration of the library through a seam, and for 288 configurations (operator tables with overlapping candidates, several ConstExpr functions, small map environments, structs with two embedded structs) every permutation (<= 4 entries; three fixed ones above) of every iteration visit is explored within deviation bound 1 (2 in the thorough tier): the program must not change; program, run environment and Env() sample are deeply snapshotted before/after every run; a second run on an equal environment and a reused vm.VM must give equal results.",
+  note="Trusted: canonical deep snapshots (mc/snap); the seam generator (go/types based, regenerated from the tree under test at every run; sites it cannot rewrite are listed); cross-process axis is two samples.",
+  ref="DESIGN.md section 4 C09, section 3.6"),
  "C10": dict(
   technique="exhaustive enumeration of syntax trees built from the ast types (every node kind in every child slot of every node kind, to a depth bound) with a reflection-derived reference traversal, every position replaced by a visitor, plus end-to-end one-hole contexts compiled with a Patch visitor",
   text="For every tree: ast.Walk must produce exactly the Enter/Exit sequence computed by reflection over the ast.Node and []ast.Node fields in declaration order (each node once, parents around children, children in source order); for every position, a visitor replacing that node on Exit and on Enter must leave the replacement in that slot and (on Enter) have its children walked. End to end, every one-hole context C[41] of a hole grammar (under slices, indexes, closures, arguments, map keys/values, branches, ranges) compiled with a Patch visitor rewriting 41 to 42 must evaluate like C[42] in three modes.",
@@ -109,13 +114,13 @@ def main():
             "level_note": c["note"],
             "technique": c["technique"],
         })
-    na = [{"property_id": p, "reason": "check not yet built in this round (planned, see DESIGN.md section 4); no claim is made"} for p in ALL if p not in CHECKS]
+    na = [{"property_id": p, "reason": "check not yet built (planned, see DESIGN.md section 4); no claim is made"} for p in ALL if p not in CHECKS]
     m = {
         "version": 1,
         "setup_cmd": "./setup.sh",
         "hooks": {
             "guard": "verif",
-            "enable": "no hook is committed to /repo; checks that need access to package-level state generate additive files (build tag verif) at check time and build with `go build -tags verif -overlay <generated.json>`",
+            "enable": "no hook is committed to /repo; C09 (and the globals accessor for C08) generate additive files at check time from the current sources (rewritten copies of files that range over maps, a virtual package verifseam, one zz_verif_globals.go per package under build tag verif) and build the checker with `go build -tags verif -overlay <generated overlay.json>`; /repo itself is never modified",
             "baseline_off_cmd": "cd /repo && GOFLAGS=-mod=mod go test -json -vet=off -count=1 -timeout 25m ./...",
             "source_commits": [],
             "add_only": True,
